@@ -519,6 +519,121 @@ func genPoolUse(byDir map[string]*parsed) []*genFile {
 	g.pf("(* decode.go unmarshal*: functions that do not decode from a fresh make+copy of the caller's bytes *)\n")
 	g.pf("Definition unmarshal_functions : nat := %d.\n", nUn)
 	emit("unmarshal_input_not_copied", notFresh)
+	// bytes handed to user callbacks (UnmarshalJSON / UnmarshalText): a fresh copy or a slice of the call's private buffer, never the stream window
+	dec := byDir["internal/decoder"]
+	nsites := 0
+	var streamAlias []string
+	var dnames []string
+	for n := range dec.files {
+		dnames = append(dnames, n)
+	}
+	sort.Strings(dnames)
+	for _, fn := range dnames {
+		if strings.HasPrefix(fn, "verif_") {
+			continue
+		}
+		for _, d := range dec.files[fn].Decls {
+			fd, ok := d.(*ast.FuncDecl)
+			if !ok || fd.Body == nil {
+				continue
+			}
+			// all assignments in the function: name -> right-hand sides
+			defs := map[string][]ast.Expr{}
+			copied := map[string]bool{}
+			ast.Inspect(fd.Body, func(n ast.Node) bool {
+				switch x := n.(type) {
+				case *ast.AssignStmt:
+					for i, l := range x.Lhs {
+						id, ok := l.(*ast.Ident)
+						if !ok {
+							continue
+						}
+						if len(x.Rhs) == len(x.Lhs) {
+							defs[id.Name] = append(defs[id.Name], x.Rhs[i])
+						} else if len(x.Rhs) == 1 {
+							defs[id.Name] = append(defs[id.Name], x.Rhs[0])
+						}
+					}
+				case *ast.CallExpr:
+					if nodeText(dec.fset, x.Fun) == "copy" && len(x.Args) == 2 {
+						if id, ok := x.Args[0].(*ast.Ident); ok {
+							copied[id.Name] = true
+						}
+					}
+				}
+				return true
+			})
+			var resolve func(e ast.Expr, depth int) string
+			resolve = func(e ast.Expr, depth int) string {
+				if depth > 8 {
+					return "unknown"
+				}
+				switch x := e.(type) {
+				case *ast.Ident:
+					rs, ok := defs[x.Name]
+					if !ok {
+						return "param:" + x.Name
+					}
+					worst := "fresh"
+					for _, r := range rs {
+						k := resolve(r, depth+1)
+						if k == "fresh" && !copied[x.Name] {
+							k = "fresh"
+						}
+						if k != "fresh" {
+							worst = k
+						}
+						if k == "stream" {
+							return "stream"
+						}
+					}
+					return worst
+				case *ast.SliceExpr:
+					t := nodeText(dec.fset, x.X)
+					if t == "s.buf" {
+						return "stream"
+					}
+					return resolve(x.X, depth+1)
+				case *ast.CallExpr:
+					f := nodeText(dec.fset, x.Fun)
+					if f == "make" {
+						return "fresh"
+					}
+					if f == "unquoteBytes" && len(x.Args) == 1 {
+						return resolve(x.Args[0], depth+1)
+					}
+					return "call:" + f
+				case *ast.SelectorExpr:
+					if nodeText(dec.fset, x) == "s.buf" {
+						return "stream"
+					}
+					return "field:" + nodeText(dec.fset, x)
+				}
+				return "unknown"
+			}
+			ast.Inspect(fd.Body, func(n ast.Node) bool {
+				ce, ok := n.(*ast.CallExpr)
+				if !ok {
+					return true
+				}
+				se, ok := ce.Fun.(*ast.SelectorExpr)
+				if !ok || (se.Sel.Name != "UnmarshalJSON" && se.Sel.Name != "UnmarshalText") || len(ce.Args) == 0 {
+					return true
+				}
+				nsites++
+				arg := ce.Args[len(ce.Args)-1]
+				if k := resolve(arg, 0); k == "stream" {
+					streamAlias = append(streamAlias, "internal/decoder/"+fn+":"+fd.Name.Name+": "+se.Sel.Name+" receives `"+nodeText(dec.fset, arg)+"`, a slice of the stream window")
+				}
+				return true
+			})
+		}
+	}
+	g.pf("(* internal/decoder: calls of UnmarshalJSON / UnmarshalText, and those that are handed a slice of the stream window (s.buf) without a copy *)\n")
+	g.pf("Definition callback_sites : nat := %d.\n", nsites)
+	emit("callback_gets_stream_window", streamAlias)
+	facts["callback_sites"] = nsites
+	facts["callback_gets_stream_window"] = streamAlias
 	facts["pool_unresolved_types"] = unresolvedTypes
 	facts["pool_functions"] = names
 	facts["pool_use_after_release"] = uar
